@@ -625,7 +625,7 @@ def parents_of(root, target):
     return None
 
 
-def path_conditions(root, target):
+def path_conditions(root, target, skip_error_exits=False):
     """Conditions that hold whenever `target` is evaluated: list of (kind, node, polarity/extra).
       ("if", cond, True|False)        inside then / else of an `if`
       ("after-exit", cond, False)     after `if cond { <diverges> }` in an enclosing block (so !cond holds)
@@ -656,6 +656,9 @@ def path_conditions(root, target):
                 if s is nxt:
                     break
                 s0 = peel(s, refs=False)
+                if skip_error_exits and ((s0.get("k") == "if" and "else" not in s0 and is_err_exit(s0["then"]))
+                                         or (s0.get("k") == "let" and "els" in s0 and is_err_exit(s0["els"]))):
+                    continue        # `if c { bail!(..) }` / `let P = e else { bail!(..) }`: the failing path delivers nothing at all
                 if s0.get("k") == "if" and "else" not in s0 and diverges(s0["then"]):
                     c = peel(s0["cond"], refs=False)
                     if c.get("k") == "letexpr":
